@@ -3,7 +3,6 @@ from common import *
 
 _rp = "rtps::rtps_reader_proxy::verif_harness_rproxy"
 PROP = {
-    "ready": False,
     "title": "convergence after finite loss, then quiescence (per-round obligations)",
     "design_ref": "DESIGN.md section 3, C02",
     "inject": dict(ENV_INJECT, **{"src/rtps/rtps_reader_proxy.rs": ["rproxy"], "src/structure/sequence_number.rs": ["seqnum"]}),
